@@ -69,7 +69,8 @@ Err(f, T) == LET uu(i) == RAdd(RSq(U(f,i)[1]), RSq(U(f,i)[2]))
              IN [e0 |-> RAdd(RMul(f.k2, RSum(uu, 1, N)), RSum(ww, 1, N)), e1 |-> RMul(R(2), RSum(uw, 1, N))]
 \* ---- state machine ------------------------------------------------------------------------------
 GoodObjs == {1, 2}
-BadObjs == {3, 4}            \* 3: a point cloud with one point fewer; 4: a 3-D point cloud
+BadObjs == {3, 4, 5}         \* 3: a point cloud with one point fewer; 4: a 3-D point cloud; 5: other point count AND other
+                             \*    dimension with the same number of coordinates in total (N/2 points in 4-D)
 FitFor(c, v) == IF IsSymCfg(c) THEN Sym(v) ELSE Build(c, Targets[v])
 ErrFor(c, f, v) == IF IsSymCfg(c) THEN [e0 |-> Z0, e1 |-> Z0] ELSE Err(f, Targets[v])
 \* current content of the target an alignment holds: the caller's object (shared by design), or - for a copy of a
